@@ -83,11 +83,16 @@ class EscLoop:
 
 
 def _takes_ord(pm, owner, node, var: str, frame=None, depth: int = 0) -> bool:
-    """ord(var) is evaluated under `node`, directly or in a repository helper that receives var"""
+    """the numeric code of the character `var` is taken under `node` (ord(var), var.encode(…), var.isascii()),
+    directly or in a repository helper that receives var"""
     for c in ast.walk(node):
         if not isinstance(c, ast.Call):
             continue
         if dotted(c.func) == "ord" and c.args and isinstance(c.args[0], ast.Name) and c.args[0].id == var:
+            return True
+        # other ways of getting at the character's code: its encoded bytes, or the ASCII test
+        if isinstance(c.func, ast.Attribute) and c.func.attr in ("encode", "isascii") and isinstance(c.func.value, ast.Name) \
+                and c.func.value.id == var:
             return True
         if depth < 3 and any(isinstance(a, ast.Name) and a.id == var for a in list(c.args) + [k.value for k in c.keywords]):
             callee = resolve_call(pm, owner, c, frame)
@@ -109,7 +114,7 @@ def _takes_ord(pm, owner, node, var: str, frame=None, depth: int = 0) -> bool:
 
 def find_escape_loop(ctx: Ctx, cg: CallGraph):
     """the escaper, recognised by role: an iteration over the characters of a string, reachable from the
-    entry point, whose body takes ord() of the character (directly or through a helper).  Statement loops
+    entry point, whose body takes the code of the character (ord(), its encoded bytes, isascii(); directly or through a helper).  Statement loops
     and comprehensions / generator expressions (`''.join(f(c) for c in text)`) are both accepted."""
     pm = ctx.pm
     cands = []
